@@ -72,7 +72,9 @@ package ztest
 //@        forall(k, int, forall(x, int, 0 <= k && k < len(g) && g[k].Tag == 'e' && g[k].I1 <= x && x < g[k].I2 ==> a[x] == b[x - g[k].I1 + g[k].J1]))
 //@ pred EndsOK(g []opCode, n int) := len(g) > 0 &&
 //@        (g[0].Tag == 'e' ==> g[0].I2 - g[0].I1 <= n) && (g[len(g)-1].Tag == 'e' ==> g[len(g)-1].I2 - g[len(g)-1].I1 <= n)
-// What lies between two steps e (earlier) and f (later) is the same in both texts.
+// What lies between two positions e (earlier) and f (later) is the same in both texts.
+// (Two further clauses - what lies between two hunks, and what follows the last one, is the same in both texts - were
+// proved once but only by one solver in 10-23 s; they are not claimed: a slow obligation is an unstable one.)
 //@ pred GapSame(a []string, b []string, eI2 int, eJ2 int, fI1 int, fJ1 int) := eI2 <= fI1 && eJ2 <= fJ1 && fI1 - eI2 == fJ1 - eJ2 &&
 //@        forall(x, int, eI2 <= x && x < fI1 ==> a[x] == b[x - eI2 + eJ2])
 //@ func (sm *ztest.sequenceMatcher) GetGroupedOpCodes(n int) (groups [][]opCode)
@@ -89,9 +91,7 @@ package ztest
 //@   ensures nonEmpty ==> forall(q, int, 0 <= q && q < len(groups) ==> EqualSame(sm.a, sm.b, groups[q]))   [C20] "lines a hunk presents as unchanged are equal in both texts"
 //@   ensures forall(q, int, 0 <= q && q < len(groups) ==> EndsOK(groups[q], ctx))                [C20] "a hunk starts and ends with at most n unchanged lines"
 //@   ensures forall(q, int, 0 <= q && q < len(groups)-1 ==> groups[q][len(groups[q])-1].I2 <= groups[q+1][0].I1 && groups[q][len(groups[q])-1].J2 <= groups[q+1][0].J1)   [C20] "hunks appear in order and do not overlap"
-//@   ensures nonEmpty ==> forall(q, int, 0 <= q && q < len(groups)-1 ==> GapSame(sm.a, sm.b, groups[q][len(groups[q])-1].I2, groups[q][len(groups[q])-1].J2, groups[q+1][0].I1, groups[q+1][0].J1))   [C20] "what lies between two hunks is the same in both texts"
 //@   ensures nonEmpty && len(groups) > 0 ==> GapSame(sm.a, sm.b, 0, 0, groups[0][0].I1, groups[0][0].J1)     [C20] "what precedes the first hunk is the same in both texts"
-//@   ensures nonEmpty && len(groups) > 0 ==> GapSame(sm.a, sm.b, groups[len(groups)-1][len(groups[len(groups)-1])-1].I2, groups[len(groups)-1][len(groups[len(groups)-1])-1].J2, len(sm.a), len(sm.b))     [C20] "what follows the last hunk is the same in both texts"
 //@   ensures nonEmpty && len(groups) == 0 ==> GapSame(sm.a, sm.b, 0, 0, len(sm.a), len(sm.b))              [C20] "no hunk at all means the texts are equal"
 //@   ensures forall(q, int, 0 <= q && q < len(groups) ==> !(len(groups[q]) == 1 && groups[q][0].Tag == 'e'))     [C20] "no hunk consists of a single unchanged range"
 //@   ensures !nonEmpty ==> len(groups) == 0                                                      [C20] "two empty texts give no hunk"
@@ -112,8 +112,7 @@ package ztest
 //@     invariant len(group) > 0 && group[0].Tag == 'e' ==> group[0].I2 - group[0].I1 <= n
 //@     invariant !nonEmpty && loopIdx > 0 ==> len(group) == 1
 //@     invariant forall(q, int, 0 <= q && q < len(groups)-1 ==> groups[q][len(groups[q])-1].I2 <= groups[q+1][0].I1 && groups[q][len(groups[q])-1].J2 <= groups[q+1][0].J1)
-//@     invariant nonEmpty ==> forall(q, int, 0 <= q && q < len(groups)-1 ==> GapSame(sm.a, sm.b, groups[q][len(groups[q])-1].I2, groups[q][len(groups[q])-1].J2, groups[q+1][0].I1, groups[q+1][0].J1))
-//@     invariant nonEmpty && len(groups) > 0 && len(group) > 0 ==> GapSame(sm.a, sm.b, groups[len(groups)-1][len(groups[len(groups)-1])-1].I2, groups[len(groups)-1][len(groups[len(groups)-1])-1].J2, group[0].I1, group[0].J1)
+//@     invariant len(groups) > 0 && len(group) > 0 ==> groups[len(groups)-1][len(groups[len(groups)-1])-1].I2 <= group[0].I1 && groups[len(groups)-1][len(groups[len(groups)-1])-1].J2 <= group[0].J1
 //@     invariant len(groups) > 0 ==> loopIdx > 0 && groups[0][0].I1 == codes[0].I1 && groups[0][0].J1 == codes[0].J1
 //@     invariant len(groups) == 0 && len(group) > 0 ==> group[0].I1 == codes[0].I1 && group[0].J1 == codes[0].J1
 //@     invariant len(groups) == 0 ==> len(group) == loopIdx
